@@ -37,6 +37,12 @@ class C04(Prop):
             'non-trivial = at least two levels present; distinct by (feature vector, item)')
     assumptions = ['levels are read from the parsed helper-attribute records (parse_single); the parse step is covered by C05/C14']
 
+    rustc_programs = [
+        ('#[derive_ex(Clone, Default, bound(T: Mk))] struct X<T>(#[default(T::mk())] T);   [T: Mk implies nothing else]',
+         'pub trait Mk: Sized { fn mk() -> Self; fn dup(&self) -> Self; }\npub struct Nc; impl Mk for Nc { fn mk() -> Nc { Nc } fn dup(&self) -> Nc { Nc } }\n'
+         '#[::derive_ex::derive_ex(Default, bound(T: Mk))]\npub struct X<T>(#[default(T::mk())] pub T);\npub fn run() { let _: X<Nc> = Default::default(); }'),
+    ]
+
     def n(self, tier):
         return 260 if tier == 'quick' else 12000     # per (trait, kind of item)
 
@@ -116,8 +122,27 @@ class C04(Prop):
                 validated += 1
                 if len(samples) < 3 and m['nontrivial'] and len(ts) + len(ps) >= 3:
                     samples.append(dict(input=r.input_text()[:700], where=where_of(mine[0][1])[:300]))
-        return dict(evaluations=len(results), validated=validated, failures=failures, samples=samples,
-                    refused_for_other_reasons=skipped)
+        # compiled: the bounds the rule prescribes are ENOUGH for the generated bodies (hand-written programs whose field
+        # types implement exactly what the where-clause asks for, for exactly the instantiations used)
+        from .. import l2
+        class _Lit:
+            def __init__(self, text):
+                self.text, self.meta = text, dict(nontrivial=True)
+            def input_text(self):
+                return self.text
+        lits = [l2.Module(7 * 10 ** 6 + k, src, _Lit(text)) for k, (text, src) in enumerate(self.rustc_programs)]
+        if lits:
+            l2.compile_batch(self.pid.lower() + 'lit', lits, prelude='', check_only=True)
+            for mo in lits:
+                if mo.compiled:
+                    validated += 1
+                else:
+                    failures.append(dict(**{'class': 'prescribed-bounds-do-not-suffice', 'mode': 'compile'}, input=mo.meta.input_text(),
+                                         expected='compiles: the body needs nothing beyond the where-clause of the rule',
+                                         observed=[d['message'] for d in mo.diags if d['level'] == 'error'][:3]))
+            l2.cleanup(self.pid.lower() + 'lit')
+        return dict(evaluations=len(results) + len(lits), validated=validated, failures=failures, samples=samples,
+                    refused_for_other_reasons=skipped, programs=len(lits))
 
 
 def _impl_generics(hdr):
